@@ -26,6 +26,14 @@ class Ctx:
         self.tier = tier
         self.root = root or os.environ.get("SA_REPO", "/repo")
         self.prog = Program(self.root, wide=(tier == "thorough"))
+        self.normalisation = {}
+        if not os.environ.get("SA_NO_NORMALIZE"):
+            # E9: dissolve helpers that are not part of the pinned tree into their callers (sa/normalize.py)
+            from .normalize import normalize_program
+            from .types import World
+            trees, self.normalisation = normalize_program(self.prog, World(self.prog))
+            if self.normalisation.get("dissolved"):
+                self.prog = Program(self.root, wide=(tier == "thorough"), trees=trees)
         self._world = None
         self._hier = None
         self._tables = None
